@@ -46,14 +46,21 @@ where
 /**
 Wait for a channel potentially running on a `tokio` thread to process all items active at the point this call was made.
 
-If the current thread is a `tokio` thread then this call will be executed using [`tokio::task::block_in_place`] to avoid starving other work.
+If the current thread belongs to a multi-threaded `tokio` runtime then this call will be executed using [`tokio::task::block_in_place`] to avoid starving other work. In a current-thread runtime, where `tokio` can't block in place, and outside of `tokio` a regular blocking wait is used.
 */
 pub fn blocking_flush<T: Channel>(sender: &Sender<T>, timeout: Duration) -> bool {
     match tokio::runtime::Handle::try_current() {
-        // If we're on a `tokio` thread then await
-        Ok(handle) => handle.block_on(flush(sender, timeout)),
-        // If we're not on a `tokio` thread then run a regular blocking variant
-        Err(_) => sync::blocking_flush(sender, timeout),
+        // If we're on a multi-threaded `tokio` runtime then tell it we're about to block and await.
+        // `block_on` can't be called directly from a thread that's driving the runtime
+        Ok(handle)
+            if handle.runtime_flavor() == tokio::runtime::RuntimeFlavor::MultiThread =>
+        {
+            tokio::task::block_in_place(|| handle.block_on(flush(sender, timeout)))
+        }
+        // If we're on a current-thread `tokio` runtime then it can't be blocked on from the inside.
+        // The channel is processed on its own thread, so it's safe to run a regular blocking variant.
+        // If we're not on a `tokio` thread then also run a regular blocking variant
+        Ok(_) | Err(_) => sync::blocking_flush(sender, timeout),
     }
 }
 
@@ -81,10 +88,17 @@ pub fn blocking_send<T: Channel>(
     timeout: Duration,
 ) -> Result<(), BatchError<T::Item>> {
     match tokio::runtime::Handle::try_current() {
-        // If we're on a `tokio` thread then await
-        Ok(handle) => handle.block_on(send(sender, msg, timeout)),
-        // If we're not on a `tokio` thread then run a regular blocking variant
-        Err(_) => sync::blocking_send(sender, msg, timeout),
+        // If we're on a multi-threaded `tokio` runtime then tell it we're about to block and await.
+        // `block_on` can't be called directly from a thread that's driving the runtime
+        Ok(handle)
+            if handle.runtime_flavor() == tokio::runtime::RuntimeFlavor::MultiThread =>
+        {
+            tokio::task::block_in_place(|| handle.block_on(send(sender, msg, timeout)))
+        }
+        // If we're on a current-thread `tokio` runtime then it can't be blocked on from the inside.
+        // The channel is processed on its own thread, so it's safe to run a regular blocking variant.
+        // If we're not on a `tokio` thread then also run a regular blocking variant
+        Ok(_) | Err(_) => sync::blocking_send(sender, msg, timeout),
     }
 }
 
